@@ -33,11 +33,11 @@ def _dec():
     return _decode
 
 
-def imem_descs(ops):
+def imem_descs(ops, mn=None):
     out = []
     for d in ops:
         if d["k"] == "imem":
-            out.append((d, False))
+            out.append((d, mn == "JP"))
         elif d["k"] == "emem_imem":
             out.append((d["imem"], True))
     return out
@@ -95,7 +95,7 @@ def build_case(r, pfx, op, b2, flavour="dist", addr=None, small_payload=True, ic
     mem: dict[int, int] = {}
     regs = {}
     if flavour == "dist":
-        ids = imem_descs(ops)
+        ids = imem_descs(ops, mn)
         ns = [d.get("n") for d, _ in ids]
         bp, px, py, good = pick_pointers(r, ns if ns else [0x10])
         case["distinct_bases"] = good
